@@ -45,6 +45,19 @@ Definition C11_constraint_table (sparse : bool) (t : string) (m : nat) : option 
     Some (map (fun x => (nm "mprocess_element_choi_from_var"%string "mprocess_element_choi_from_var_with_sparsity"%string, x)) (seq 0 m))
   else None.
 
+(* CvxpyMinimizationAlgorithm.optimize: the dispatch around the solver call.  None = ValueError.
+   needs_outcomes: povm / mprocess variables are sized with num_outcomes_estimate();  constrained: "physical" attaches the PSD constraints of
+   generate_cvxpy_constraints_from_cvxpy_variable_with_sparsity, "unconstraint" none;  solver: which solve call (SCS receives eps = eps_tol) *)
+Definition C11_cvx_needs_outcomes (t : string) : option bool :=
+  if (String.eqb t "povm"%string || String.eqb t "mprocess"%string)%bool then Some true
+  else if (String.eqb t "state"%string || String.eqb t "gate"%string)%bool then Some false else None.
+Definition C11_cvx_constrained (mode : string) : option bool :=
+  if String.eqb mode "physical"%string then Some true else if String.eqb mode "unconstraint"%string then Some false else None.
+Definition C11_cvx_solver (name : string) : option string :=
+  if String.eqb name "scs"%string then Some "SCS(eps=eps_tol)"%string
+  else if String.eqb name "mosek"%string then Some "MOSEK(DFEAS=eps_tol)"%string
+  else if String.eqb name "cvxopt"%string then Some "CVXOPT"%string else None.
+
 Section C11_Cvx.
 Context (F : OF).
 Notation Cx := (CF F).
